@@ -77,6 +77,11 @@ def validate_shard(args):
                    timeout=7200, xmx="3g")
 
 
+def failfast(ctx):
+    """mutation experiments only: VERIF_FAILFAST=1 stops after the first stage that found a violation"""
+    return bool(os.environ.get("VERIF_FAILFAST")) and bool(ctx.violations)
+
+
 def validate(ctx, traces, tag="c04T"):
     wd = tlc.workdir(tag)
     # big traces first, round-robin over the shards
@@ -235,13 +240,13 @@ def run(ctx):
     ctx.note("wall_s_M", round(time.time() - t0, 1))
     t0 = time.time()
     # --- G ---------------------------------------------------------------------------------------
-    if quick:
-        gen_and_replay(ctx, "DecTreeSim.cfg", "simulated7", simulate="num=6", depth=9)
-        gen_and_replay(ctx, "DecTreeSim10.cfg", "simulated10", simulate="num=3", depth=12)
-    else:
-        gen_and_replay(ctx, "DecTreeGen_thorough.cfg", "exhaustive5")
-        gen_and_replay(ctx, "DecTreeSim.cfg", "simulated7", simulate="num=120", depth=9)
-        gen_and_replay(ctx, "DecTreeSim10.cfg", "simulated10", simulate="num=60", depth=12)
+    gens = ([("DecTreeSim.cfg", "simulated7", "num=6", 9), ("DecTreeSim10.cfg", "simulated10", "num=3", 12)] if quick else
+            [("DecTreeGen_thorough.cfg", "exhaustive5", None, None), ("DecTreeSim.cfg", "simulated7", "num=120", 9),
+             ("DecTreeSim10.cfg", "simulated10", "num=60", 12)])
+    for cfg, kind, sim, depth in gens:
+        gen_and_replay(ctx, cfg, kind, simulate=sim, depth=depth)
+        if failfast(ctx):
+            return
     ctx.exhaustive = False
     ctx.note("wall_s_G", round(time.time() - t0, 1))
     t0 = time.time()
